@@ -158,6 +158,24 @@ def main():
     stats.update(gstats)
     impl, model = run_both(cases)
     dis, ora = evaluate(prop, cfg, cases, impl, model)
+    # independent replays of every history in fresh processes (fresh hash seeds): the implementation must reproduce
+    # its own observations exactly (C16)
+    nrep_runs = cfg.get("replays", {}).get(tier, 0)
+    replay_diffs = 0
+    for k in range(nrep_runs):
+        again = V.run_cases(V.HBIN, cases, jobs=max(2, V.JOBS - 3 * k))
+        for c in cases:
+            a, b = strip(impl.get((c.kind, c.cid), [])), strip(again.get((c.kind, c.cid), []))
+            d = V.first_diff(a, b)
+            if d is not None:
+                replay_diffs += 1
+                if replay_diffs <= 2:
+                    violation("oracle-failure", dict(
+                        what="two independent replays of the same history on fresh Pie instances (separate processes, fresh hash seeds) differ",
+                        case=dict(kind=c.kind, body=c.body), failures=[f"line {d[0]}: first replay '{d[1]}', replay #{k + 2} '{d[2]}'"],
+                        implementation=a, second_replay=b))
+    stats["independent_replays_per_case"] = 1 + nrep_runs
+    stats["replay_differences"] = replay_diffs
 
     # 4./5. classify: known findings, violations; search for failing input on disagreement ------
     known = [k for k in V.load_known_findings() if k["property"] == prop and k["status"] == "known"]
